@@ -79,6 +79,17 @@ def run(tier):
                 nb = lead + body + buf[hl:]
                 mp = os.path.join(wd, "%s-%s-%d.zck" % (name, kind, p)); open(mp, "wb").write(nb)
                 scripts.append((name, kind, p, nb, "case %s-%s-%d 20\nctx 0\nopen 0 %s r\ninit_read 0 0\nend\n" % (name, kind, p, mp)))
+        # 2b. the lead's two integers re-spelled in a longer, non-minimal form with the same value (digest untouched):
+        # the checksum is over the bytes, not over the decoded values
+        o1, n1 = h.fields["hash_type"]; o2, n2 = h.fields["header_length"]
+        def nonmin(b):
+            return bytes(b[:-1]) + bytes([b[-1] & 0x7f, 0x80])
+        for tag, nb in (("type", buf[:o1] + nonmin(buf[o1:o1 + n1]) + buf[o1 + n1:]), ("hlen", buf[:o2] + nonmin(buf[o2:o2 + n2]) + buf[o2 + n2:]),
+                        ("both", buf[:o1] + nonmin(buf[o1:o1 + n1]) + nonmin(buf[o2:o2 + n2]) + buf[o2 + n2:])):
+            for mg in (b"\0ZCK1", b"\0ZHR1"):
+                nb2 = mg + nb[5:]
+                mp = os.path.join(wd, "%s-nonmin-%s-%s.zck" % (name, tag, mg[2:4].decode())); open(mp, "wb").write(nb2)
+                scripts.append((name, "nonmin-" + tag, mg[2], nb2, "case %s-nonmin%s%s-0 20\nctx 0\nopen 0 %s r\ninit_read 0 0\nend\n" % (name, tag, mg[2:4].decode(), mp)))
         # 3. identifier toggle
         tog = (b"\0ZHR1" if buf[:5] == b"\0ZCK1" else b"\0ZCK1") + buf[5:]
         mp = os.path.join(wd, "%s-toggle.zck" % name); open(mp, "wb").write(tog)
